@@ -60,6 +60,22 @@ pub fn plug(
             }
         }
 
+        // A plug may export several names on one semver track (e.g. two versions of one
+        // interface). Keep a single pair per socket import, preferring the export whose
+        // name matches the import exactly, so that a plug never collides with itself.
+        let mut unique_exports: Vec<(String, String)> = Vec::new();
+        for (plug_name, socket_name) in plug_exports {
+            match unique_exports.iter_mut().find(|(_, s)| *s == socket_name) {
+                Some(existing) => {
+                    if plug_name == socket_name {
+                        existing.0 = plug_name;
+                    }
+                }
+                None => unique_exports.push((plug_name, socket_name)),
+            }
+        }
+        let plug_exports = unique_exports;
+
         // Instantiate the plug component
         let mut plug_instantiation = None;
         for (plug_name, socket_name) in plug_exports {
